@@ -1,4 +1,4 @@
-"""Bounded stand-ins (thorough tier only; never counted as proved).  Each
+"""Bounded stand-ins (never counted as proved).  Each
 runs the real code of the tree under check on an enumerated finite space and
 reports the bound.  A failure is a concrete failing input."""
 import itertools
@@ -11,12 +11,70 @@ def _real(name):
 
 
 def c13_regex_meaning(seed):
-    """replace_phrases: a phrase never matches across a blank line and only
-    at word boundaries -- texts <= 7 over {a,b,' ','\\n','.'}, rules from a
-    pool (exhaustive)"""
+    """replace_phrases against an independent reference (no regular
+    expressions): a phrase matches at a position iff its words follow each
+    other separated by white space that has at most one line break, it
+    starts / ends at a word boundary where its first / last character is a
+    letter; leftmost matches, non-overlapping, replaced by the right-hand
+    side; text and position list stay of equal length.  Texts <= 6 over
+    {a,b,' ','\n','.'} x 7 rules (exhaustive)"""
     rp = _real('yalafi.utils.replace_phrases')
-    rules = [['a b & X'], ['a & Y'], ['a. & Z'], ['b a & '], ['a  b & WW']]
+    rules = [['a b & X'], ['a & Y'], ['a. & Z'], ['b a & '], ['a  b & WW'],
+             ['a.b & V  # comment'], ['.a & U']]
     alpha = 'ab \n.'
+
+    def wordch(c):
+        return c.isalnum() or c == '_'
+
+    def match_at(txt, i, words):
+        """end index of a match of the phrase at i, or None"""
+        j = i
+        for k, w in enumerate(words):
+            if k:
+                # white space with at most one line break, at least one char
+                st = j
+                nl = 0
+                while j < len(txt) and txt[j] in ' \t\n':
+                    if txt[j] == '\n':
+                        nl += 1
+                        if nl > 1:
+                            break
+                    j += 1
+                if nl > 1:
+                    # regex semantics: backtrack to before the 2nd newline
+                    # is not a match of the separator followed by a word
+                    return None
+                if j == st:
+                    return None
+            if not txt.startswith(w, j):
+                return None
+            j += len(w)
+        first, last = words[0][0], words[-1][-1]
+        if first.isalpha() and i > 0 and wordch(txt[i - 1]):
+            return None
+        if last.isalpha() and j < len(txt) and wordch(txt[j]):
+            return None
+        return j
+
+    def ref(txt, rule):
+        lin = rule.split('#')[0].split()
+        if '&' in lin:
+            k = lin.index('&')
+            words, rhs = lin[:k], ' '.join(lin[k + 1:])
+        else:
+            words, rhs = lin, ''
+        if not words:
+            return txt
+        out, i = '', 0
+        while i < len(txt):
+            e = match_at(txt, i, words)
+            if e is not None and e > i:
+                out += rhs
+                i = e
+            else:
+                out += txt[i]
+                i += 1
+        return out
     n = 0
     fails = []
     for ln in range(0, 7):
@@ -28,25 +86,18 @@ def c13_regex_meaning(seed):
                 o_txt, o_pos = rp(txt, pos, rule)
                 if len(o_txt) != len(o_pos):
                     fails.append({'txt': txt, 'rule': rule, 'why': 'length'})
-                lhs = rule[0].split('&')[0].split()
-                rhs = rule[0].split('&')[1].strip() if '&' in rule[0] else ''
-                # text without the phrase words in sequence is unchanged
-                pat = r'\s+'.join(re.escape(w) for w in lhs)
-                if not re.search(pat, txt) and o_txt != txt:
-                    fails.append({'txt': txt, 'rule': rule,
-                                  'why': 'changed without phrase'})
-                # a phrase spanning a blank line is not replaced
-                for m in re.finditer(pat, txt):
-                    if re.search(r'\n[ \t]*\n', m.group(0)) and \
-                            txt.count('\n\n') and o_txt.count('\n') < \
-                            txt.count('\n') and len(lhs) > 1 and \
-                            '\n' not in rhs and o_txt != txt and \
-                            not re.search(pat.replace(r'\s+', '[ \t]*\n?[ \t]*'),
-                                          txt.replace('\n\n', '\x00')):
-                        fails.append({'txt': txt, 'rule': rule,
-                                      'why': 'matched across a blank line'})
-    return {'name': 'replace_phrases regex meaning', 'bounded': True,
-            'bound': 'all texts of length <= 6 over 5 characters x 5 rules',
+                want = ref(txt, rule[0])
+                if o_txt != want:
+                    fails.append({'txt': txt, 'rule': rule, 'got': o_txt,
+                                  'expected': want})
+                if len(fails) >= 5:
+                    break
+            if len(fails) >= 5:
+                break
+        if len(fails) >= 5:
+            break
+    return {'name': 'replace_phrases-against-reference', 'bounded': True,
+            'bound': 'all texts of length <= 6 over 5 characters x 7 rules',
             'evaluations': n, 'failures': fails[:5]}
 
 
@@ -109,5 +160,6 @@ def c20_single_letters(seed):
                      'lists', 'evaluations': n, 'failures': fails[:5]}
 
 
-BOUNDED = {'C13': [c13_regex_meaning], 'C16': [c16_add_line_numbers],
-           'C20': [c20_single_letters]}
+# all three are fast enough for the quick tier: they are referenced from the
+# QUICK_BOUNDED lists of props/C13.py, C16.py, C20.py
+BOUNDED = {}
